@@ -805,7 +805,9 @@ def identify(ctx, x, constants=[], tol=None, maxcoeff=1000, full=False,
                 q = ctx.pslq([ctx.one, t, t**2], tol, M)
                 if q is not None and len(q) == 3 and q[2]:
                     aa, bb, cc = q
-                    if max(abs(aa),abs(bb),abs(cc)) <= M:
+                    # a vanishing discriminant means a (spurious) double
+                    # rational root, not a quadratic irrational
+                    if max(abs(aa),abs(bb),abs(cc)) <= M and bb**2 > 4*aa*cc:
                         s = quadraticstring(ctx,t,aa,bb,cc)
             if s:
                 if cn == '1' and ('/$c' in ftn):
